@@ -140,7 +140,8 @@ def worker_main(prop, seed, start, stride, count, out_dir, wallcap, log_digests,
             else:
                 agg['violation'] = {'index': index, 'hash_seed': os.environ.get('PYTHONHASHSEED'),
                                     'trace': trace, 'violation': res.violation, 'signature': sig,
-                                    'history': {'start': start, 'stride': stride, 'run_offset': run_offset, 'deep': bool(deep), 'i': i}}
+                                    'history': {'start': start, 'stride': stride, 'run_offset': run_offset, 'deep': bool(deep), 'i': i, 'done': done,
+                                                'log_digests': bool(log_digests)}}
                 break
         i += stride
         done += 1
@@ -375,7 +376,24 @@ def minimise_and_confirm(prop, seed, v, out_dir):
                     r = json.load(f)
                 return True, final, '%s: %s  [needs %d earlier run(s) in the same process: state survives between runs]' % (
                     r['violation']['cls'], r['violation']['msg'][:400], len(r.get('prelude', [])))
-    return False, final, 'neither the minimised nor the raw trace, nor the worker\'s run history, reproduced in a fresh interpreter: %s' % out[-500:]
+    # last resort: the failure may depend on where objects happen to live in memory (a cache keyed by id(), say); then only
+    # the worker's own code path, run again from its first run, allocates the same way.  The replay file asks for exactly that.
+    if v.get('history'):
+        rec3 = dict(rec)
+        rec3['worker_replay'] = dict(v['history'], seed=seed, hash_seed=int(hs))
+        rec3['minimised'] = False
+        with open(final, 'w') as f:
+            json.dump(rec3, f, indent=1)
+        p = _spawn([prop, '--replay', final], hs)
+        try:
+            out, _ = p.communicate(timeout=RUN_ALARM_S + 900)
+        except subprocess.TimeoutExpired:
+            p.kill()
+            return False, final, 'worker replay timed out'
+        if p.returncode == 1 and 'VIOLATION' in out:
+            return True, final, '%s: %s  [reproduces only through the worker\'s own run history (%d runs): depends on process state such as object addresses]' % (
+                v['violation']['cls'], v['violation']['msg'][:300], v['history'].get('done', 0) + 1)
+    return False, final, 'neither the minimised nor the raw trace, nor the worker\'s run history, nor a re-run of the worker reproduced in a fresh interpreter: %s' % out[-500:]
 
 
 def history_main(prop, raw, out):
@@ -468,6 +486,38 @@ def replay_main(prop, path):
         execute_guarded(mod, t)          # earlier runs of the same worker process; only their side effects matter
     res = execute_guarded(mod, rec['trace'])
     print('replay %s (seed=%s index=%s hashseed=%s prelude=%d)' % (path, rec.get('seed'), rec.get('index'), hs, len(rec.get('prelude', []))))
+    if not res.violation and rec.get('worker_replay'):
+        w = rec['worker_replay']
+        tmp = os.path.join(VERIF, '.work', 'replay-%d' % os.getpid())
+        shutil.rmtree(tmp, ignore_errors=True)
+        os.makedirs(tmp)
+        args = [prop, '--worker', '--seed', str(w['seed']), '--start', str(w['start']), '--stride', str(w['stride']), '--count', str(w['done'] + 1),
+                '--out', tmp, '--wallcap', '100000']
+        if w.get('run_offset'):
+            args += ['--run-offset', str(w['run_offset'])]
+        if w.get('deep'):
+            args.append('--deep')
+        if w.get('log_digests'):
+            args.append('--log-digests')
+        p = _spawn(args, w['hash_seed'])
+        p.communicate()
+        rp = os.path.join(tmp, 'result-%d.json' % w['start'])
+        got = None
+        if os.path.exists(rp):
+            with open(rp) as f:
+                got = json.load(f).get('violation')
+        shutil.rmtree(tmp, ignore_errors=True)
+        try:
+            os.rmdir(os.path.join(VERIF, '.work'))
+        except OSError:
+            pass
+        print('re-ran the worker (%d runs from index %d, stride %d)' % (w['done'] + 1, w['run_offset'] + w['start'], w['stride']))
+        if got and got['index'] == rec['index'] and got['violation']['cls'] == rec['violation']['cls']:
+            print('VIOLATION property=%s replay=%s' % (prop, path))
+            print('  %s: %s' % (got['violation']['cls'], got['violation']['msg']))
+            return 1
+        print('no violation on this tree')
+        return 0
     if res.violation:
         sig = mod.signature(rec['trace'], res.violation)
         if any(e['signature'] == sig for e in known_findings(prop)):
